@@ -1528,6 +1528,36 @@ int32 parseCertificateVerify(ssl_t *ssl,
 /******************************************************************************/
 
 #ifdef USE_CLIENT_SIDE_SSL
+/* Was this cipher suite listed in the ClientHello we sent? When the
+   application gave no list every enabled suite was offered, and the
+   lookup of the suite decides. */
+static psBool_t clientHelloOfferedCipher(ssl_t *ssl, uint32 cipher)
+{
+    const psCipher16_t *list = ssl->tlsClientCipherSuites;
+    psSize_t i, len = ssl->tlsClientCipherSuitesLen;
+
+# ifdef USE_TLS_1_3
+    if (len == 0 && ssl->tls13ClientCipherSuitesLen > 0)
+    {
+        /* The ClientHello was written by the TLS 1.3 code */
+        list = ssl->tls13ClientCipherSuites;
+        len = ssl->tls13ClientCipherSuitesLen;
+    }
+# endif
+    if (len == 0)
+    {
+        return PS_TRUE;
+    }
+    for (i = 0; i < len; i++)
+    {
+        if (list[i] == cipher)
+        {
+            return PS_TRUE;
+        }
+    }
+    return PS_FALSE;
+}
+
 int32 parseServerHello(ssl_t *ssl, int32 hsLen, unsigned char **cp,
     unsigned char *end)
 {
@@ -1694,6 +1724,14 @@ int32 parseServerHello(ssl_t *ssl, int32 hsLen, unsigned char **cp,
             "cipher_suite",
             cipher,
             PS_TRUE);
+
+    /* The server selects from the list our ClientHello carried */
+    if (!clientHelloOfferedCipher(ssl, cipher))
+    {
+        ssl->err = SSL_ALERT_ILLEGAL_PARAMETER;
+        psTraceIntInfo("Server chose a cipher we did not offer: %d\n", cipher);
+        return MATRIXSSL_ERROR;
+    }
 
     /*  A resumed session can only match the cipher originally
         negotiated. Otherwise, match the first cipher that we support */
